@@ -61,14 +61,14 @@ def run(ctx):
     # loss-class findings (datagram never delivered) and kernel-drop excuses are decided by one
     # isolated, still paced re-run of exactly that history: reproduced with zero kernel drops ->
     # violation; drops again -> inconclusive; clean -> scheduling noise of the shared machine.
-    MAX_RERUN = 24
+    MAX_RERUN = 12
 
     def rerun(b, mode, i):
         out = os.path.join(ctx.tmp, f"iso-{vf.flavor_of(b)}-{mode}-{i}.jsonl")
         return mode, i, vf.run_harness(b, ["--mode", mode, "--seed", ctx.seed, "--from", i, "--count", 1,
                                            "--isolated", 1, "--out", out], timeout=1800, out_file=out)
     todo = sorted(suspects)[:MAX_RERUN]
-    for mode, i, rr in vf.run_many(ctx, [lambda t=t: rerun(*t) for t in todo], workers=4):
+    for mode, i, rr in vf.run_many(ctx, [lambda t=t: rerun(*t) for t in todo], workers=6):
         ctx.ingest(rr, where=f"(isolated re-run {mode}/{i}, {rr.flavor})")
         ctx.obs("loss_suspects_rerun_in_isolation")
         if rr.timed_out or rr.rc not in (0, 86, 87):
@@ -78,12 +78,12 @@ def run(ctx):
 
     ctx.rule = (
         "history = fresh Transport::udp (edge/level triggered, batched/unbatched loop, small SO_SNDBUF, small write queue, "
-        "ioReadChunk 65536|65507) with 1-2 listeners and 2-8 raw UDP peers on 127.0.0.1 or ::1; 30-70 seeded steps out of {peer batch -> listener, "
+        "ioReadChunk 65536|65507, maxSessions 0|2..6) with 1-2 listeners and 2-8 raw UDP peers on 127.0.0.1 or ::1; 30-70 seeded steps out of {peer batch -> listener, "
         "peer -> connected session, foreign peer -> connected port, send on open/closed/unknown session, sends to several "
         "destinations under an injected EAGAIN burst, connect, connectViaListener (biased to peers that already have a "
         "receiving session), close (biased to *other* sessions of such a peer), oversize send (error close), both-way burst "
-        "with a second sending thread}, plus the motif 'receiving session, open+close another session to the same peer, peer "
-        "sends again'; idle mode = six real-time idle-expiry shapes (1 s timeout, 1 s GC tick). Sizes 1..65507 boundary-biased. "
+        "with a second sending thread}, plus the motifs 'receiving session, open+close another session to the same peer, peer "
+        "sends again' and 'fill the engine to its session cap, then an established peer and a new peer send'; idle mode = six real-time idle-expiry shapes (1 s timeout, 1 s GC tick). Sizes 1..65507 boundary-biased. "
         "Every datagram carries (origin, id, length, checksum) and is compared byte for byte. Offline rules: wire datagrams "
         "from iora are a sub-multiset of accepted sends, each at most once, intact, addressed to the session's peer; every "
         "datagram a raw peer sent (kernel drop counters zero) is exactly one intact data event on a session whose "
@@ -91,7 +91,8 @@ def run(ctx):
         "that peer's datagrams there and no new accept for it occurs, whatever else is closed. distinct = hash of the "
         "configuration coordinates and of which of those situations the history actually reached")
     ctx.assumptions = [
-        "loopback only (127.0.0.1; ::1 in ~15 % of the histories, one family per history); maxSessions unlimited and ioReadChunk >= 65507 (a smaller configured chunk or a session cap drops/cuts by configuration)",
+        "loopback only (127.0.0.1; ::1 in ~15 % of the histories, one family per history); ioReadChunk >= 65507 (a smaller configured chunk cuts by configuration)",
+        "maxSessions is 0 or, in ~15 % of the mix histories, 2..6: at the cap the engine may refuse a peer that has no receiving session (an undelivered datagram of such a peer is excused only if the number of announced-and-not-closed sessions reached the cap while it was in flight; counted); peers with an open receiving session are judged as always",
         "EAGAIN from send/sendto is injected for iora's I/O thread by interposition (a legal kernel answer; real loopback sockets never fill their send buffer); payloads are never altered",
         "a datagram is 'delivered by the kernel' when sendto returned its full length and the drops column of /proc/net/udp{,6} for the destination socket stayed 0; raw sockets additionally report SO_RXQ_OVFL",
         "an undelivered datagram counts only when an isolated re-run of the same history reproduces it with zero kernel drops",
@@ -105,7 +106,8 @@ def run(ctx):
         "idle_expiry_of_other_session_while_receiving_session_open", "closes_by_app", "closes_idle_expiry", "closes_on_error",
         "eagain_injected", "eagain_injected_on_listener_socket", "eagain_injected_on_connected_socket",
         "eagain_bursts_with_several_destinations_queued", "delivered_65507", "wire_65507", "delivered_lt_16", "wire_lt_16",
-        "histories_two_listeners", "histories_ipv6", "histories_batched_loop", "histories_level_triggered", "histories_small_sndbuf",
+        "histories_two_listeners", "histories_ipv6", "histories_session_cap",
+        "datagrams_from_peer_with_receiving_session_sent_at_session_cap", "histories_batched_loop", "histories_level_triggered", "histories_small_sndbuf",
         "histories_small_write_queue", "kernel_drop_counters_read", "step_burst_both_ways",
         "step_send_on_closed_or_unknown_session", "foreign_datagram_to_connected_port_not_delivered")
 
